@@ -24,6 +24,43 @@ def takeLines : Nat → List Byte → List Byte × List Byte
   | k + 1, inp =>
     ((nextLine inp).1 ++ (takeLines k (nextLine inp).2).1, (takeLines k (nextLine inp).2).2)
 
+/-! ### the reference reader: lines, not bytes
+
+  What POSIX asks of `sh` reading commands from a file or standard input, in its simplest form: the
+  input is a list of lines; an iteration takes the *fewest* lines that make a complete command for the
+  parser **as configured by everything executed so far** (aliases, options), executes it with the
+  remaining lines as its standard input, and only then looks at the next line.  No reader, no buffer,
+  no fuel-driven pulling: `takeLines k` for the least `k`.  The driver prints this run's observation as
+  the Spec prediction (`=…`): the implementation must produce exactly it. -/
+
+def specPull (parse : Bool → List Byte → ParseRes) : Nat → Nat → List Byte →
+    List Byte × List Byte × ParseRes
+  | 0, k, inp => ((takeLines k inp).1, (takeLines k inp).2, .error)
+  | n + 1, k, inp =>
+    if inp = [] then ([], [], parse true [])
+    else if !(parse false (takeLines k inp).1).isIncomplete then
+      ((takeLines k inp).1, (takeLines k inp).2, parse false (takeLines k inp).1)
+    else if (takeLines k inp).2 = [] then
+      ((takeLines k inp).1, [], parse true (takeLines k inp).1)
+    else specPull parse n (k + 1) inp
+
+def specLoop : Nat → State → State × Outcome
+  | 0, s => (s, .outOfFuel)
+  | n + 1, s =>
+    let p := specPull (parserOf s) (s.inp.length + 1) 1 s.inp
+    let s1 : State := { s with inp := p.2.1, echo := echoOf s p.1,
+                               pos := if s.shared then s.pos + p.1.length else s.pos }
+    match p.2.2 with
+    | .none => (s1, .eof)
+    | .error => ({ s1 with status := 2 }, .syntaxError)
+    | .incomplete => ({ s1 with status := 2 }, .syntaxError)
+    | .ok cs bodies =>
+      let r := runK bodies execFuel (cmds cs) s1
+      if r.2 then specLoop n r.1 else (r.1, .outOfFuel)
+
+def specRun (shared : Bool) (script data : List Byte) : State × Outcome :=
+  specLoop (script.length + 2) (initState shared script data)
+
 def isSuffix (a b : List Byte) : Bool := a.length ≤ b.length && b.drop (b.length - a.length) == a
 
 /-- offset `o` of `script` is the start of a line or the end of the script -/
